@@ -1197,6 +1197,21 @@ static void initSessionEntryChronList(void)
     the ssl sessionId and sessionIdLength fields will be non-NULL upon
     return.
  */
+/*
+    Was the client of this server session authenticated - in this handshake,
+    or in the handshake that established the session it resumes?  Kept with
+    cached sessions and tickets: a session made without client authentication
+    must not be resumed by a server session that requires it.
+ */
+static unsigned char sessionClientWasAuthed(const ssl_t *ssl)
+{
+    if (ssl->flags & SSL_FLAGS_RESUMED)
+    {
+        return ssl->sessClientAuthed;
+    }
+    return ((ssl->flags & SSL_FLAGS_CLIENT_AUTH) && !ssl->sec.anon) ? 1 : 0;
+}
+
 int32 matrixRegisterSession(ssl_t *ssl)
 {
     uint32 i;
@@ -1268,6 +1283,7 @@ int32 matrixRegisterSession(ssl_t *ssl)
     without a cipher; matrixUpdateSession sets it once the handshake is done.
  */
     g_sessionTable[i].cipher = NULL;
+    g_sessionTable[i].clientAuthed = 0;
     g_sessionTable[i].inUse += 1;
     ssl->sessCacheHeld = 1;
 /*
@@ -1348,6 +1364,7 @@ int32 matrixClearSession(ssl_t *ssl, int32 remove)
         Memset(g_sessionTable[i].id + 4, 0x0, SSL_MAX_SESSION_ID_SIZE - 4);
         Memset(g_sessionTable[i].masterSecret, 0x0, SSL_HS_MASTER_SIZE);
         g_sessionTable[i].extendedMasterSecret = 0;
+        g_sessionTable[i].clientAuthed = 0;
         g_sessionTable[i].cipher = NULL;
     }
     psUnlockMutex(&g_sessionTableLock);
@@ -1420,7 +1437,16 @@ int32 matrixResumeSession(ssl_t *ssl)
         return PS_FAILURE;
     }
 
+    /* A session established without client authentication is no substitute
+       for the client authentication this server session requires */
+    if ((ssl->flags & SSL_FLAGS_CLIENT_AUTH) && !g_sessionTable[i].clientAuthed)
+    {
+        psUnlockMutex(&g_sessionTableLock);
+        return PS_FAILURE;
+    }
+
     /* Looks good */
+    ssl->sessClientAuthed = g_sessionTable[i].clientAuthed;
     Memcpy(ssl->sec.masterSecret, g_sessionTable[i].masterSecret,
         SSL_HS_MASTER_SIZE);
     ssl->cipher = g_sessionTable[i].cipher;
@@ -1494,6 +1520,10 @@ int32 matrixUpdateSession(ssl_t *ssl)
     /* Resumable only once this handshake has completed, i.e. the peer's
        Finished (and CertificateVerify, if requested) has been verified. */
     g_sessionTable[i].cipher = (ssl->hsState == SSL_HS_DONE) ? ssl->cipher : NULL;
+    if (ssl->hsState == SSL_HS_DONE)
+    {
+        g_sessionTable[i].clientAuthed = sessionClientWasAuthed(ssl);
+    }
     psUnlockMutex(&g_sessionTableLock);
     return PS_SUCCESS;
 }
@@ -1749,7 +1779,9 @@ int32 matrixCreateSessionTicket(ssl_t *ssl, unsigned char *out, int32 *outLen)
     *c = (ssl->cipher->ident & 0xFF00) >> 8; c++;
     *c = ssl->cipher->ident & 0xFF; c++;
     /* Need to track if original handshake used extended master secret */
-    *c = ssl->extFlags.extended_master_secret; c++;
+    /* bit 0: extended master secret used, bit 1: client was authenticated */
+    *c = (unsigned char) (ssl->extFlags.extended_master_secret |
+            (sessionClientWasAuthed(ssl) << 1)); c++;
 
     Memcpy(c, ssl->sec.masterSecret, SSL_HS_MASTER_SIZE);
     c += SSL_HS_MASTER_SIZE;
@@ -1974,12 +2006,20 @@ int32 matrixUnlockSessionTicket(ssl_t *ssl, unsigned char *in, int32 inLen)
     /* First round of "require" testing can be done here.  If server is
         set to require extended master secret and this ticket DOES NOT have it
         then we can stop resumption right now */
-    if (*enc == 0x0 && ssl->extFlags.require_extended_master_secret == 1)
+    if ((*enc & 0x1) == 0x0 && ssl->extFlags.require_extended_master_secret == 1)
     {
         psTraceErrr("Ticket and master secret derivation methods differ\n");
         return PS_FAILURE;
     }
-    ssl->extFlags.require_extended_master_secret = *enc; enc++;
+    /* Was the client authenticated in the session this ticket stands for?
+       If not, it cannot replace the client authentication required now */
+    if ((ssl->flags & SSL_FLAGS_CLIENT_AUTH) && (*enc & 0x2) == 0x0)
+    {
+        psTraceErrr("Ticket of a session without client authentication\n");
+        return PS_FAILURE;
+    }
+    ssl->sessClientAuthed = (*enc & 0x2) ? 1 : 0;
+    ssl->extFlags.require_extended_master_secret = *enc & 0x1; enc++;
 
     /* Set aside masterSecret */
     Memcpy(ssl->sid->masterSecret, enc, SSL_HS_MASTER_SIZE);
